@@ -227,21 +227,23 @@ var Filler = func() string {
 // CtlBody is the list text whose only byte below 0x20 besides LF (or 0x7F) is
 // v at position class pos.  probe is the probe name it has a rule for; every
 // body also has a rule naming v and pos, so that the normal forms of two
-// bodies differ.
+// bodies differ.  The line with the control byte names a host under .invalid:
+// when v is LF the line falls into two, and neither part may be a pattern that
+// matches a probe name (".example^" would match every name under .example).
 func CtlBody(v byte, pos, probe string) string {
 	head := fmt.Sprintf("||%s^\n||v%02x-%s.example^\n", probe, v, pos)
 	c := string([]byte{v})
 	switch pos {
 	case "line-start":
-		return head + c + "||ctl.example^\n||after.example^\n"
+		return head + c + "||ctl.invalid^\n||after.example^\n"
 	case "mid-line":
-		return head + "||ct" + c + "l.example^\n||after.example^\n"
+		return head + "||ct" + c + "l.invalid^\n||after.example^\n"
 	case "last-byte":
-		return head + "||ctl.example^" + c
+		return head + "||ctl.invalid^" + c
 	case "late-in-line":
-		return head + "||" + strings.Repeat("a", 300) + c + ".example^\n||after.example^\n"
+		return head + "||" + strings.Repeat("a", 300) + c + "zz.invalid^\n||after.example^\n"
 	case "after-4k":
-		return head + Filler + "||ct" + c + "l.example^\n||after.example^\n"
+		return head + Filler + "||ct" + c + "l.invalid^\n||after.example^\n"
 	case "comment":
 		return head + "# com" + c + "ment\n||after.example^\n"
 	case "title":
